@@ -61,6 +61,10 @@ def skeletons(n, in_loop):
                 yield ("S", t, e)
 
 
+def count_nodes(sk):
+    return (0 if sk[0] in ("P", "E", "B", "C") else 1) + sum(count_nodes(x) for x in sk[1:])
+
+
 def build_skel(sk, counter, c_expr):
     t = sk[0]
     if t == "P":
@@ -155,16 +159,18 @@ def run(tier: str) -> int:
         return res, cls
 
     # ---- (a) exhaustive control skeletons
-    maxn = 2 if tier == "quick" else 4
+    maxn = 3 if tier == "quick" else 4
     versions = [2, 4, 8, 9, 10] if tier == "quick" else [2, 3, 4, 5, 6, 7, 8, 9, 10]
     nsk = 0
     for sk, placement, prog in skeleton_programs(maxn):
+        if tier == "quick" and count_nodes(sk) >= 3 and r.random() > 0.12:
+            continue        # quick: exhaustive up to 2 control nodes, a seeded 12 % sample of the 3-node skeletons
         nsk += 1
         has_sub = bool(prog.subs)
         need = 4 if has_sub else 2
-        vs = versions if tier == "thorough" else r.sample(versions, 2)
+        vs = versions if tier == "thorough" else r.sample(versions, 1)
         for v in vs:
-            for opts in (option_sets(v, has_sub) if tier == "thorough" else r.sample(option_sets(v, has_sub), 2)):
+            for opts in (option_sets(v, has_sub) if tier == "thorough" else r.sample(option_sets(v, has_sub), 1)):
                 expect = v >= need
                 judge(prog, v, opts, expect, "skeleton", {"skeleton": repr(sk), "placement": placement})
         if len(samples) < 3 and nsk % 97 == 1:
@@ -172,7 +178,7 @@ def run(tier: str) -> int:
     stats["skeletons"] = nsk
 
     # ---- (b) random well-typed programs, model outcome class vs real outcome class
-    nrand = 120 if tier == "quick" else 3000
+    nrand = 260 if tier == "quick" else 4000
     for i in range(nrand):
         if time.time() - rep.t0 > t_budget:
             rep.notes.append(f"time budget reached after {i} random programs")
